@@ -133,47 +133,114 @@ example : check { cexCheck with L := 35651584, cbound := fun _ => 35652256 } [1,
 
 /-! ### the batched checker on a single-column action tensor
 
-KNOWN FINDING (`known_findings.json`: op-checker-single-column-batch-C06).  `get_reward` hands whole
-batches to the checker.  For a batch of `B ≥ 2` rows whose action tensor has ONE column,
-`gather_by_index` squeezes the step dimension and `get_tour_length` rolls over the batch: every row
-is tested with the perimeter of the polygon through the rows' selected nodes.  The verdict on the
-batch is therefore not the conjunction of the verdicts on its rows. -/
-
-/-- the batch verdict is the conjunction of the row verdicts -/
-def check_single_column_batch_statement : Prop :=
-  ∀ (rows : List (Inst × Nat)) (X : Nat → Nat → Int), (∀ r, X r r = 0) →
-    (∀ ia ∈ rows, ia.1.D ia.2 ia.2 = 0) →
-    checkSingleColumnBatch rows X = rows.all (fun ia => check ia.1 [ia.2])
+`get_reward` hands whole batches to the checker.  For a batch whose action tensor has ONE column the
+code path differs from the general one (`gather_by_index` may squeeze a dimension of size one).
+Since upstream fix 9be001b (`squeeze=False`) the verdict on such a batch is the conjunction of the
+verdicts on its rows — the former known finding op-checker-single-column-batch-C06 is repaired; the
+harness keeps comparing the real batched checker with this model as a regression probe. -/
 
 theorem sortNat_singleton (a : Nat) : sortNat [a] = [a] := by simp [sortNat]
 
-theorem check_singleton (i : Inst) (a : Nat) (hd : i.D a a = 0) :
+theorem check_singleton (i : Inst) (a : Nat) :
     check i [a] = (decide (a ≤ i.n) &&
-      (List.range (i.n + 1)).all (fun j => Params.opCheckLenCmp.eval 0 (i.cbound j))) := by
+      (List.range (i.n + 1)).all (fun j => Params.opCheckLenCmp.eval (i.D a a) (i.cbound j))) := by
   simp only [check, sortNat_singleton, adjOk, List.all_cons, List.all_nil, Bool.and_true]
-  have : rollLen i.D [a] = 0 := by simp [rollLen, roll1, hd]
+  have : rollLen i.D [a] = i.D a a := by simp [rollLen, roll1]
   rw [this]
 
-/-- two rows `[0]`, `[0]` of two instances (n = 0, checker bound 0.25 + 1e-5 in units of 2^-26) whose
-depots are 0.5 apart: each row alone is accepted (length 0), the batch is rejected (perimeter 1.0) -/
+theorem all_and_all {α : Type} (l : List α) (p q : α → Bool) :
+    (l.all p && l.all q) = l.all (fun x => p x && q x) := by
+  induction l with
+  | nil => rfl
+  | cons x t ih =>
+    simp only [List.all_cons, ← ih]
+    cases p x <;> cases q x <;> cases t.all p <;> cases t.all q <;> rfl
+
+/-- **C06 (OP), batched checker on single-column action tensors**: the verdict on the batch is the
+conjunction of the row-wise verdicts, for every batch (any size, any instances, any nodes). -/
+theorem check_single_column_batch (rows : List (Inst × Nat)) :
+    checkSingleColumnBatch rows = rows.all (fun ia => check ia.1 [ia.2]) := by
+  simp only [checkSingleColumnBatch, all_and_all, check_singleton]
+
+/-- Non-vacuity: two rows `[0]`, `[0]` (checker bound 0.25 + 1e-5 in units of 2^-26) whose depots are
+0.5 apart — the witness of the repaired finding — are accepted row by row and as a batch. -/
 def cexRow : Inst :=
   { n := 0, L := 16777216, D := fun _ _ => 0, prize := fun _ => 0, budget := fun _ => 16777149,
     cbound := fun _ => 16777888 }
+example : checkSingleColumnBatch [(cexRow, 0), (cexRow, 0)] = true := by decide
 
-/-- **C06 (OP), batched checker, counterexample.** -/
-theorem check_single_column_batch_counterexample : ¬ check_single_column_batch_statement := by
-  intro h
-  have := h [(cexRow, 0), (cexRow, 0)] (fun r r' => if r = r' then 0 else 33554432)
-    (by intro r; simp) (by intro ia hia; simp at hia; subst hia; rfl)
-  rw [List.all_cons, List.all_cons, List.all_nil, check_singleton cexRow 0 rfl] at this
-  revert this
-  decide
+/-! ### exact characterisations of the accepted set -/
 
-/-- **C06 (OP), batched checker, partial**: for a batch of one row the single-column path agrees with
-the row-wise checker. -/
-theorem check_single_column_batch_partial (i : Inst) (a : Nat) (X : Nat → Nat → Int) (hX : X 0 0 = 0)
-    (hd : i.D a a = 0) : checkSingleColumnBatch [(i, a)] X = check i [a] := by
-  rw [check_singleton i a hd]
-  simp [checkSingleColumnBatch, hX]
+/-- **C06 (OP), exact, any list**: the checker accepts exactly the lists in range, without a repeated
+customer, whose CYCLE through the listed nodes (no depot legs unless the depot is listed) fits all the
+per-node bounds. -/
+theorem check_iff_cycle (i : Inst) (as : List Nat) :
+    check i as = true ↔
+      (∀ a ∈ as, a ≤ i.n) ∧ (∀ j, 1 ≤ j → as.count j ≤ 1) ∧ (∀ j, j ≤ i.n → closedLen i.D as ≤ i.cbound j) := by
+  rw [check_eq_true_iff, rollLen_eq_closedLen]
+
+/-- **C06 (OP), exact, lists closed at the depot**: accepted ⇔ in range, no repeated customer, and the tour
+depot → list → depot fits all the per-node bounds. -/
+theorem check_iff_of_closed (i : Inst) (hd00 : i.D 0 0 = 0) {as : List Nat} (hc : ClosedAtDepot as) :
+    check i as = true ↔
+      (∀ a ∈ as, a ≤ i.n) ∧ (∀ j, 1 ≤ j → as.count j ≤ 1) ∧ (∀ j, j ≤ i.n → tourLen i as ≤ i.cbound j) := by
+  rw [check_eq_true_iff, rollLen_eq_tourLen i hd00 hc]
+
+/-- **C06 (OP), exact iff**: when every per-node bound is `L + tol`, a list closed at the depot is accepted
+⇔ it is feasible within `tol`. -/
+theorem check_iff_feasibleWithin (i : Inst) (tol : Int) (hd00 : i.D 0 0 = 0)
+    (hcb : ∀ j, j ≤ i.n → i.cbound j = i.L + tol) {as : List Nat} (hc : ClosedAtDepot as) :
+    check i as = true ↔ FeasibleWithin tol i as := by
+  rw [check_iff_of_closed i hd00 hc]
+  constructor
+  · rintro ⟨h1, h2, h3⟩
+    exact ⟨h1, fun j hj _ => h2 j hj, by have := h3 0 (by omega); rw [hcb 0 (by omega)] at this; exact this⟩
+  · rintro ⟨h1, h2, h3⟩
+    refine ⟨h1, ?_, fun j hj => by rw [hcb j hj]; exact h3⟩
+    intro j hj
+    by_cases hjn : j ≤ i.n
+    · exact h2 j hj hjn
+    · have : j ∉ as := fun hm => hjn (h1 j hm)
+      rw [List.count_eq_zero_of_not_mem this]; omega
+
+/-! ### the checker's bound from the extracted tolerance -/
+
+theorem checkPrecomp_iff (i : Inst) (U rho : Int) : checkPrecomp i U rho = true ↔ CheckPrecomp i U rho := by
+  simp only [checkPrecomp, List.all_eq_true, List.mem_range, Bool.and_eq_true, decide_eq_true_eq, CheckPrecomp]
+  constructor
+  · intro h j hj; exact h j (by omega)
+  · intro h j hj; exact h j (by omega)
+
+/-- the bounds the checker derives are `L + 1e-5` (extracted) up to rounding: never below `L` … -/
+theorem cbound_ge_of_checkPrecomp (i : Inst) (U rho : Int) (hp : CheckPrecomp i U rho)
+    (hrho : 100000 * rho ≤ U) : ∀ j, j ≤ i.n → i.L ≤ i.cbound j := by
+  intro j hj
+  have := (hp j hj).1
+  simp only [Params.opCheckTol] at this
+  omega
+
+/-- … and at most `1e-5 + rho` above it. -/
+theorem cbound_le_of_checkPrecomp (i : Inst) (U rho tol : Int) (hp : CheckPrecomp i U rho)
+    (ht : U + 100000 * rho ≤ 100000 * tol) : ∀ j, j ≤ i.n → i.cbound j ≤ i.L + tol := by
+  intro j hj
+  have := (hp j hj).2
+  simp only [Params.opCheckTol] at this
+  omega
+
+/-- **C06 (OP), completeness with the bound inside the model.** -/
+theorem check_complete_precomp (i : Inst) (U rho : Int) (hd00 : 0 ≤ i.D 0 0) (htri : TriViaDepot i)
+    (hp : CheckPrecomp i U rho) (hrho : 100000 * rho ≤ U) {as : List Nat} (hf : Feasible i as) :
+    check i as = true :=
+  check_complete i hd00 htri (cbound_ge_of_checkPrecomp i U rho hp hrho) hf
+
+/-- **C06 (OP), soundness (lists closed at the depot) with the bound inside the model**: accepted ⇒
+feasible within `1e-5 + rho`. -/
+theorem check_sound_precomp (i : Inst) (U rho tol : Int) (hd00 : i.D 0 0 = 0)
+    (hp : CheckPrecomp i U rho) (ht : U + 100000 * rho ≤ 100000 * tol) {as : List Nat}
+    (hc : ClosedAtDepot as) (h : check i as = true) : FeasibleWithin tol i as :=
+  check_sound_partial i tol hd00 ⟨0, by omega, cbound_le_of_checkPrecomp i U rho tol hp ht 0 (by omega)⟩ hc h
+
+/-- Non-vacuity: the real checker bounds of `cexCheck` (unit 2^-26) are `L + 1e-5` up to one unit. -/
+example : CheckPrecomp cexCheck 67108864 1 := (checkPrecomp_iff _ _ _).mp (by decide)
 
 end Rl4co.Op
